@@ -67,8 +67,8 @@ func c09Case(c *hx.Ctx, r *hx.RNG, idx int64) {
 				continue
 			}
 			c.Count("operand_snapshots_compared", 1)
-			if !st.pre[vi].Same(st.post[vi]) {
-				c.Violate("operand-modified", fmt.Sprintf("step %d %s: variable v%d changed from %s to %s", i, d, vi, st.pre[vi], st.post[vi]), "")
+			if !st.pre[vi].Identical(st.post[vi]) {
+				c.Violate("operand-modified", fmt.Sprintf("step %d %s: variable v%d changed from %s to %s", i, d, vi, st.pre[vi], st.post[vi])+expFields(st.pre[vi], st.post[vi]), "")
 				return
 			}
 		}
